@@ -1488,6 +1488,71 @@ def _ascii_char_test(w, closure_id, want_op):
     return False
 
 
+def _ascii_char_set_test(w, closure_id):
+    """closure(char) -> bool compares its argument with ASCII constants only (`c == 'a' || c == 'b'`, `matches!(c, 'a' | 'b')`): every char it
+    accepts is one byte long"""
+    cb = w.bodies.get(closure_id)
+    if cb is None or [t for _, t in cb.calls()]:
+        return False
+    n = 0
+    for blk in cb.blocks:
+        if blk['cleanup']:
+            continue
+        for s in blk['stmts']:
+            if s['s'] != 'assign':
+                continue
+            rv = s['rv']
+            if rv['r'] == 'binop':
+                k = rv['b'] if rv['b']['o'] == 'const' else (rv['a'] if rv['a']['o'] == 'const' else None)
+                if rv['op'] != 'Eq' or k is None or (k.get('ty') or {}).get('k') != 'char' or not isinstance(k.get('int'), int) or k['int'] >= 128:
+                    return False
+                n += 1
+        t = blk['term']
+        if t['t'] == 'switch':
+            # a `matches!` on the char: every tested value must be ASCII and the fall-through arm must answer `false`; keep it simple: values only
+            for val, _ in t.get('targets', []):
+                if not isinstance(val, int) or val >= 128:
+                    return False
+            if t.get('discr_ty') == 'char':
+                return False       # which arm is the accepting one is not decided here
+    return n > 0
+
+
+def _match_width_is(w, v, operand, k, depth):
+    """the operand is the byte offset of a match of find / rfind: is the match exactly k bytes long?  (other provenances: nothing to show)"""
+    for o in v.pv.peel(v.pv.origins_operand(operand)):
+        o = strip_casts(o)
+        if o[0] != 'call':
+            continue
+        ct = v.pv.call_term(o)
+        dp = callee_path(ct) or ''
+        if PASS_THROUGH.search(dp) or PASS_THROUGH.search(resolved_path(ct) or ''):
+            for a in ct['args']:
+                ok, why = _match_width_is(w, v, a, k, depth + 1)
+                if not ok:
+                    return ok, why
+            continue
+        if not re.search(r'core::str::<impl str>::(find|rfind)$', dp):
+            continue
+        pat = ct['args'][1]
+        width = None
+        for po in v.pv.peel(v.pv.origins_operand(pat)) if pat['o'] != 'const' else [('constop', pat)]:
+            c = po[1] if po[0] == 'constop' else (v.pv.const_operand(po) if hasattr(v.pv, 'const_operand') and po[0] == 'const' else None)
+            if c is not None and (c.get('ty') or {}).get('k') == 'char' and isinstance(c.get('int'), int):
+                wd = 1 if c['int'] < 0x80 else (2 if c['int'] < 0x800 else (3 if c['int'] < 0x10000 else 4))
+            elif c is not None and isinstance(c.get('str'), str):
+                wd = len(c['str'].encode('utf-8'))
+            else:
+                cid = _closure_of(v, pat)
+                wd = 1 if (cid and _ascii_char_set_test(w, cid)) else None
+            if wd is None or (width is not None and width != wd):
+                return False, 'the offset of a `%s` match is advanced by %d, but the matched text is not known to be %d byte(s) long (a multi-byte match leaves the offset inside a character)' % (dp.rsplit('::', 1)[-1], k, k)
+            width = wd
+        if width != k:
+            return False, 'the offset of a `%s` match is advanced by %d, but the match is %s byte(s) long' % (dp.rsplit('::', 1)[-1], k, width)
+    return True, ''
+
+
 def _closure_of(v, operand):
     for o in v.pv.peel(v.pv.origins_operand(operand)):
         if o[0] == 'agg':
@@ -1517,6 +1582,14 @@ def _byte_offset(w, v, operand, depth=0, seen=None):
                 ok, why = _byte_offset(w, v, side, depth + 1, seen)
                 if not ok:
                     return ok, why
+            # `offset of a match` + k steps over the match: a boundary only if the match is known to be k bytes long (seed C13/4B:
+            # `rfind(is_newline) + 1` after a two- or three-byte line separator)
+            if rv['op'].startswith('Add'):
+                for side, other in ((rv['a'], rv['b']), (rv['b'], rv['a'])):
+                    if other['o'] == 'const' and isinstance(other.get('int'), int) and other['int'] > 0:
+                        ok, why = _match_width_is(w, v, side, other['int'], depth)
+                        if not ok:
+                            return ok, why
             continue
         if o[0] == 'call':
             ct = v.pv.call_term(o)
